@@ -326,7 +326,8 @@ def run_check(pid, tier, module):
         (VERIF / 'evidence' / f'{pid}.json').write_text(json.dumps(ev, indent=1, default=str, ensure_ascii=False))
         if ctx.evaluations == 0:
             raise BrokenCheck('no case was evaluated')
-        if hasattr(module, 'sanity'):
+        if hasattr(module, 'sanity') and exit_code == 0:
+            # distribution sanity is judged only on runs without alarm (a broken implementation may itself collapse the distribution)
             module.sanity(ctx)
     except BrokenCheck as e:
         print(f'BROKEN-CHECK: {pid}: {e}')
